@@ -3,9 +3,74 @@ import ShelxModel.C06
 open Lean Shelx.J
 
 namespace Shelx.Drv.C06
+open Shelx.C06
+
+def ofChars (l : List Char) : Json := Json.str (String.ofList l)
+def ofLines (ls : List (List Char)) : Json := Json.arr (ls.map ofChars).toArray
+def ofBool (b : Bool) : Json := Json.bool b
+
+def ofLogical : Option (List (List Char)) → Json
+  | none => Json.null
+  | some ls => Json.arr (ls.map fun l => ofLines (tokens l)).toArray
+
+/-- the specification evaluated on a written text -/
+def specOf (out : List Char) : Json :=
+  let pls := physLines out
+  Json.mkObj [("phys", ofLines pls), ("maxlen", ofNat (maxLen pls)), ("shape", ofBool (shapeOk pls)),
+              ("logical", ofLogical (logical out)),
+              ("nonblank", match logical out with | some ls => ofLines (ls.map nonblank) | none => Json.null)]
+
+def cfgOf (j : Json) : Except String Cfg := do
+  match fieldOpt j "cfg" with
+  | none => return Cfg.extracted
+  | some c =>
+    return { shortMax := ← natField c "short", width := ← natField c "width", indent := (← strField c "indent").toList,
+             suffix := (← strField c "suffix").toList, sep := (← strField c "sep").toList }
 
 def handle (j : Json) : Except String Json := do
   let op ← strField j "op"
-  err s!"C06: unknown op {op}"
+  match op with
+  | "consts" =>
+    let c := Cfg.extracted
+    return Json.mkObj [("short", ofNat c.shortMax), ("width", ofNat c.width), ("indent", ofChars c.indent),
+                       ("suffix", ofChars c.suffix), ("sep", ofChars c.sep),
+                       ("drop_whitespace", ofBool Extracted.Wrap.dropWhitespace),
+                       ("break_on_hyphens", ofBool Extracted.Wrap.breakOnHyphens),
+                       ("break_long_words", ofBool Extracted.Wrap.breakLongWords),
+                       ("fvar_chunk", ofNat Extracted.Wrap.fvarChunk), ("fvar_prefix", ofChars Extracted.Wrap.fvarPrefix),
+                       ("fvar_sep", ofChars Extracted.Wrap.fvarSep), ("sfac_prefix", ofChars Extracted.Wrap.sfacPrefix),
+                       ("sfac_sep", ofChars Extracted.Wrap.sfacSep)]
+  | "wrap" =>
+    -- s: the instruction; out (optional): what the implementation wrote for it
+    let cfg ← cfgOf j
+    let s := (← strField j "s").toList
+    let m := writeItem cfg s
+    let hyp := Json.mkObj [("noNL", ofBool (noNL s)), ("endOk", ofBool (endOk s)),
+                           ("noLongTok", ofBool (noLongTok (cfg.width - cfg.indent.length) s))]
+    let base := [("model", ofChars m), ("model_spec", specOf m), ("hyp", hyp),
+                 ("tokens", ofLines (tokens s)), ("nonblank", ofChars (nonblank s)),
+                 ("parts", Json.arr ((splitOnC '\n' s).map fun p => ofLines (tokens p)).toArray)]
+    match fieldOpt j "out" with
+    | none => return Json.mkObj base
+    | some o => return Json.mkObj (base ++ [("impl_spec", specOf (← str o).toList)])
+  | "file" =>
+    -- text: a complete written file; the specification only
+    let t := (← strField j "text").toList
+    let pls := physLines t
+    let lg := logical t
+    return Json.mkObj [("maxlen", ofNat (maxLen pls)),
+                       ("long", ofLines (pls.filter (·.length > 80))),
+                       ("logical", ofLogical lg),
+                       ("bare", match lg with | some ls => ofLines (ls.filter bareLine) | none => Json.null)]
+  | "fvar" =>
+    let vals := (← field j "vals" >>= strs).map String.toList
+    let lines := fvarLines Extracted.Wrap.fvarChunk Extracted.Wrap.fvarPrefix Extracted.Wrap.fvarSep vals
+    return Json.mkObj [("model", ofChars (renderFvars Extracted.Wrap.fvarChunk Extracted.Wrap.fvarPrefix Extracted.Wrap.fvarSep vals)),
+                       ("lines_ok", ofBool (lines.all (keywordWithParams "FVAR".toList)))]
+  | "sfac" =>
+    let els := (← field j "els" >>= strs).map String.toList
+    let ln := sfacLine Extracted.Wrap.sfacPrefix Extracted.Wrap.sfacSep els
+    return Json.mkObj [("model", ofChars ln), ("line_ok", ofBool (keywordWithParams "SFAC".toList ln))]
+  | _ => err s!"C06: unknown op {op}"
 
 end Shelx.Drv.C06
